@@ -28,14 +28,15 @@ the text into `List (Option Nat)` (by characters, `char::is_whitespace` removed)
 the correspondence run on puzzles with ASCII, multi-byte and full-width-digit blanks.
 
 Not proved: that the bytes the binary writes parse to `Sudoku.formula` (tree equality per
-generated puzzle in the correspondence run, r ≤ 3), and the equivalence of `ValidGrid` with the
-executable oracle `Puzzles.isSudoku` (which selects the cells of a box by their box index
-instead of enumerating them); for r ≤ 2 the run compares against all solutions found by
-backtracking.
+generated puzzle in the correspondence run, r ≤ 3).  `isSudoku_iff`: the executable oracle
+`Puzzles.isSudoku` (which selects the cells of a box by their box index instead of enumerating them)
+decides exactly `ValidGrid` (`box_count`: the two ways of counting a box agree), so
+`sudoku_models_bool` states C17 against the oracle the correspondence run uses.
 -/
 import Rsbdd.Proofs.GenSem
 import Rsbdd.Proofs.GenGood
 import Rsbdd.Model.Gen.Sudoku
+import Rsbdd.Spec.Puzzles
 
 namespace Rsbdd.C17
 open BDD Gen.Sudoku
@@ -392,5 +393,148 @@ example : ValidGrid 2 [some 1] (fun c => [1, 2, 3, 4, 3, 4, 1, 2, 2, 1, 4, 3, 4,
   match c, hc with
   | 0, _ => simp at hp; simp [hp.symm]
   | c + 1, _ => simp at hp
+
+
+open Puzzles
+
+/-- the cell at position `l` of box (bi, bj) -/
+def boxCell (r bi bj l : Nat) : Nat := (bi * r + l / r) * (r * r) + (bj * r + l % r)
+
+theorem boxCell_spec {r bi bj l : Nat} (hbi : bi < r) (hbj : bj < r) (hl : l < r * r) :
+    boxCell r bi bj l < r * r * (r * r) ∧ (boxCell r bi bj l / (r * r)) / r = bi ∧ (boxCell r bi bj l % (r * r)) / r = bj := by
+  have h := box_cells r bi bj l hbi hbj hl
+  simp only [box_index] at h
+  exact ⟨cell_lt (box_pos_lt hbi hl) (box_pos_lt' hbj hl), h.2.2.1, h.2.2.2.1⟩
+
+/-- a cell of box (bi, bj) is `boxCell` of some position -/
+theorem boxCell_surj {r bi bj c : Nat} (hr : 0 < r) (hc : c < r * r * (r * r))
+    (hbi : (c / (r * r)) / r = bi) (hbj : (c % (r * r)) / r = bj) :
+    ∃ l, l < r * r ∧ boxCell r bi bj l = c := by
+  have hsq : 0 < r * r := Nat.mul_pos hr hr
+  have hrow : c / (r * r) < r * r := Nat.div_lt_of_lt_mul hc
+  have hcol : c % (r * r) < r * r := Nat.mod_lt _ hsq
+  refine ⟨(c / (r * r)) % r * r + (c % (r * r)) % r, ?_, ?_⟩
+  · have h1 : (c / (r * r)) % r < r := Nat.mod_lt _ hr
+    have h2 : (c % (r * r)) % r < r := Nat.mod_lt _ hr
+    have : ((c / (r * r)) % r + 1) * r ≤ r * r := Nat.mul_le_mul_right r h1
+    rw [Nat.succ_mul] at this
+    omega
+  · unfold boxCell
+    have h2 : (c % (r * r)) % r < r := Nat.mod_lt _ hr
+    have e1 : ((c / (r * r)) % r * r + (c % (r * r)) % r) / r = (c / (r * r)) % r := by
+      rw [Nat.add_comm, Nat.add_mul_div_right _ _ hr, Nat.div_eq_of_lt h2]; omega
+    have e2 : ((c / (r * r)) % r * r + (c % (r * r)) % r) % r = (c % (r * r)) % r := by
+      rw [Nat.add_comm, Nat.add_mul_mod_self_right, Nat.mod_eq_of_lt h2]
+    rw [e1, e2, ← hbi, ← hbj]
+    have a1 : (c / (r * r)) / r * r + (c / (r * r)) % r = c / (r * r) := by
+      rw [Nat.mul_comm]; exact Nat.div_add_mod _ _
+    have a2 : (c % (r * r)) / r * r + (c % (r * r)) % r = c % (r * r) := by
+      rw [Nat.mul_comm]; exact Nat.div_add_mod _ _
+    rw [a1, a2, Nat.mul_comm]
+    exact Nat.div_add_mod c (r * r)
+
+theorem boxCell_inj {r bi bj l l' : Nat} (hbi : bi < r) (hbj : bj < r) (hl : l < r * r) (hl' : l' < r * r)
+    (h : boxCell r bi bj l = boxCell r bi bj l') : l = l' := by
+  apply box_cells_inj r bi bj l l' hbi hbj hl hl'
+  simp only [box_index]
+  exact h
+
+/-- counting the cells of a box that satisfy `P`: by box index over the whole grid, or by position in the box -/
+theorem box_count (r bi bj : Nat) (hbi : bi < r) (hbj : bj < r) (P : Nat → Bool) :
+    ((List.range (r * r * (r * r))).filter (fun c => (c / (r * r)) / r * r + (c % (r * r)) / r == bi * r + bj && P c)).length =
+    ((List.range (r * r)).filter (fun l => P (boxCell r bi bj l))).length := by
+  have hr : 0 < r := by omega
+  have hsq : 0 < r * r := Nat.mul_pos hr hr
+  -- the cells of the box, two ways
+  have hperm : ((List.range (r * r * (r * r))).filter (fun c => (c / (r * r)) / r * r + (c % (r * r)) / r == bi * r + bj)).Perm
+      ((List.range (r * r)).map (boxCell r bi bj)) := by
+    apply (List.perm_ext_iff_of_nodup ?_ ?_).mpr
+    · intro c
+      simp only [List.mem_filter, List.mem_range, beq_iff_eq, List.mem_map]
+      constructor
+      · rintro ⟨hc, hb⟩
+        have hrow : c / (r * r) < r * r := Nat.div_lt_of_lt_mul hc
+        have hcol : c % (r * r) < r * r := Nat.mod_lt _ hsq
+        have d1 : (c / (r * r)) / r < r := Nat.div_lt_of_lt_mul hrow
+        have d2 : (c % (r * r)) / r < r := Nat.div_lt_of_lt_mul hcol
+        -- base-r digits are unique
+        have e2 : (c % (r * r)) / r = bj := by
+          have := congrArg (· % r) hb
+          simp only [Nat.mul_add_mod_self_right, Nat.add_comm, Nat.add_mul_mod_self_right] at this
+          rwa [Nat.mod_eq_of_lt d2, Nat.mod_eq_of_lt hbj] at this
+        have e1 : (c / (r * r)) / r = bi := by
+          rw [e2] at hb
+          have := Nat.add_right_cancel hb
+          exact Nat.eq_of_mul_eq_mul_right hr this
+        obtain ⟨l, hl, e⟩ := boxCell_surj hr hc e1 e2
+        exact ⟨l, hl, e⟩
+      · rintro ⟨l, hl, rfl⟩
+        obtain ⟨h1, h2, h3⟩ := boxCell_spec hbi hbj hl
+        exact ⟨h1, by rw [h2, h3]⟩
+    · exact (List.nodup_range).filter _
+    · rw [List.nodup_iff_pairwise_ne, List.pairwise_map]
+      have hnd : (List.range (r * r)).Pairwise (· ≠ ·) := List.nodup_iff_pairwise_ne.mp List.nodup_range
+      exact List.Pairwise.imp_of_mem (fun {a b} ha hb hne e =>
+        hne (boxCell_inj hbi hbj (List.mem_range.mp ha) (List.mem_range.mp hb) e)) hnd
+  have := (hperm.filter P).length_eq
+  rw [List.filter_filter] at this
+  rw [List.filter_map, List.length_map] at this
+  have e2 : (List.filter (P ∘ boxCell r bi bj) (List.range (r * r))) =
+      (List.filter (fun l => P (boxCell r bi bj l)) (List.range (r * r))) := rfl
+  rw [← e2, ← this]
+  congr 1
+  apply List.filter_congr
+  intro c _
+  rw [Bool.and_comm]
+
+
+/-- the executable oracle of the correspondence run decides exactly `ValidGrid` -/
+theorem isSudoku_iff (r : Nat) (g : Nat → Nat) (givens : List (Option Nat)) :
+    isSudoku r g givens = true ↔ ValidGrid r givens g := by
+  simp only [isSudoku, ValidGrid, Bool.and_eq_true, List.all_eq_true, List.mem_range, decide_eq_true_eq, beq_iff_eq]
+  constructor
+  · rintro ⟨⟨⟨h1, h2⟩, h3⟩, h4⟩
+    refine ⟨fun c hc => h1 c hc, fun i d0 hi hd => (h2 i hi d0 hd).1, fun i d0 hi hd => (h2 i hi d0 hd).2, ?_, ?_⟩
+    · intro bi bj d0 hbi hbj hd
+      have hbx : bi * r + bj < r * r := by
+        have : (bi + 1) * r ≤ r * r := Nat.mul_le_mul_right r hbi
+        rw [Nat.succ_mul] at this; omega
+      have := h3 (bi * r + bj) hbx d0 hd
+      rw [box_count r bi bj hbi hbj (fun c => g c == d0 + 1)] at this
+      exact this
+    · intro c d hc hp
+      have := h4 c hc
+      rw [hp] at this
+      simpa using this
+  · rintro ⟨h1, h2, h3, h4, h5⟩
+    refine ⟨⟨⟨fun c hc => h1 c hc, fun i hi d0 hd => ⟨h2 i d0 hi hd, h3 i d0 hi hd⟩⟩, ?_⟩, ?_⟩
+    · intro bx hbx d0 hd
+      have hr : 0 < r := by
+        rcases Nat.eq_zero_or_pos r with h | h
+        · subst h; simp at hbx
+        · exact h
+      have hbi : bx / r < r := Nat.div_lt_of_lt_mul hbx
+      have hbj : bx % r < r := Nat.mod_lt _ hr
+      have e : bx = bx / r * r + bx % r := by rw [Nat.mul_comm]; exact (Nat.div_add_mod bx r).symm
+      rw [e, box_count r (bx / r) (bx % r) hbi hbj (fun c => g c == d0 + 1)]
+      exact h4 (bx / r) (bx % r) d0 hbi hbj hd
+    · intro c hc
+      cases hp : givens[c]? with
+      | none => trivial
+      | some o =>
+        cases o with
+        | none => trivial
+        | some d => simp only [beq_iff_eq]; exact h5 c d hc hp
+
+/-- C17 against the executable oracle: the models of the emitted formula are the encodings of the grids the
+oracle accepts -/
+theorem sudoku_models_bool (r : Nat) (puzzle : List (Option Nat)) (vid : Nat → Nat → Nat) (σ : BDD.Asg)
+    (hscope : ∀ c d, c < r * r * (r * r) → puzzle[c]? = some (some d) → 1 ≤ d ∧ d ≤ r * r) :
+    Sem (Gen.Sudoku.formula r puzzle vid) FEnv.empty σ ↔ ∃ g, isSudoku r g puzzle = true ∧ Encodes r vid σ g := by
+  rw [sudoku_models r puzzle vid σ hscope]
+  constructor
+  · rintro ⟨g, hv, he⟩; exact ⟨g, (isSudoku_iff r g puzzle).mpr hv, he⟩
+  · rintro ⟨g, hv, he⟩; exact ⟨g, (isSudoku_iff r g puzzle).mp hv, he⟩
+
 
 end Rsbdd.C17
